@@ -821,6 +821,50 @@ func runC05(r *vk.Run) {
 	})
 	r.Require("evaluated_layouts", 200)
 
+	// the query the user types is the query that is parsed: through the plugin binary itself, with
+	// characters a shell, an environment or a template engine would like to interpret ($, ${..}, %, ~, *)
+	// inside string literals
+	r.Phase("cli", r.N(6, 60), func(c *vk.Case) {
+		lines := []string{"cost ${1} usd", "cost $1 usd", "home ${HOME}/x", "home $HOME/x", "path $PATH", "pct %s 100%", "tilde ~/x", "star * ?", "plain", "brace ${", "empty ${} x", "dollar $$ x"}
+		cs := CSpec{ID: "id00", Name: "/c0", Image: "img", State: "running"}
+		for i, l := range lines {
+			cs.Frames = append(cs.Frames, Frame{Type: 1, TS: int64(1700000000+i) * 1e9, Body: l + "\n"})
+		}
+		d, err := startFakeDaemon([]CSpec{cs}, false)
+		if err != nil {
+			c.R.Inconclusive("fake daemon: " + err.Error())
+			return
+		}
+		defer d.Close()
+		needles := []string{"${1}", "$1 ", "${HOME}", "$HOME", "$PATH", "%s", "~/", "* ?", "${", "${}", "$$", "$", "{1}"}
+		for _, needle := range needles {
+			query := `{container="c0"} |= ` + strconv.Quote(needle)
+			pr, err := runPlugin(d, 60*time.Second, query, "--start", "1699990000", "--end", "1700009999", "--timestamp=false", "--container=false", "--color=false")
+			c.Eval(1)
+			if err != nil {
+				c.R.Inconclusive("cannot run plugin binary: " + err.Error())
+				return
+			}
+			var want []string
+			for _, l := range lines {
+				if strings.Contains(l, needle) {
+					want = append(want, l)
+				}
+			}
+			got := strings.Split(strings.TrimRight(string(pr.Stdout), "\n"), "\n")
+			if len(got) == 1 && got[0] == "" {
+				got = nil
+			}
+			if pr.Exit != 0 || fmt.Sprintf("%q", got) != fmt.Sprintf("%q", want) {
+				c.Fail("", fmt.Sprintf("plugin run with query %s printed %q (exit %d), the query denotes the lines %q", query, got, pr.Exit, want), map[string]any{"query": query, "stdout": string(pr.Stdout), "stderr": trunc(string(pr.Stderr), 2000), "expected": want})
+				return
+			}
+			c.Count("cli_queries", 1)
+		}
+		c.Nontrivial(fmt.Sprintf("cli|%d", c.Idx))
+	})
+	r.Require("cli_queries", 50)
+
 	// negative: static rules and grammar violations over generated parts
 	r.Phase("negative", r.N(600, 150000), func(c *vk.Case) {
 		rng := c.Rng
